@@ -179,6 +179,13 @@ func OracleMetrics(tr *Trace) ([]Finding, int) {
 				seqnoErr = true
 			}
 		}
+		if m.Overlap {
+			n++
+			if !m.OK {
+				fs = append(fs, Finding{"C16", "scrape", "C16/scrape-failed", fmt.Sprintf("scrape %d, which overlapped a close of the stream, failed: %s", mi, m.Err)})
+			}
+			continue
+		}
 		if !m.OK && seqnoErr {
 			n++
 			continue // the scrape claims nothing: acceptable
@@ -441,6 +448,34 @@ func init() {
 			var out []drv.Scenario
 			for i := 0; i < n; i++ {
 				sp, kind := c16Spec(rng, i)
+				out = append(out, drv.Scenario{Kind: kind, Seed: seed, Params: mustJSON(sp), TimeoutS: 120})
+			}
+			// own random source: the cases above keep their parameters
+			xr := rand.New(rand.NewSource(seed*97 + 13))
+			for j := 0; j < n/15; j++ {
+				sp := &SessSpec{NumVB: 3 + xr.Intn(4), Nodes: 1, AckSeed: xr.Int63(), Backlog: map[int][][]ItemSpec{}, Backend: "mem", API: true, Membership: "dynamic", PNow: 0.6, PDefer: 0.4}
+				o := &HistOpts{NumVB: sp.NumVB, PSystem: 0.05, PSeqAdv: 0.1, MaxItems: 4}
+				ctr := 0
+				for vb := 0; vb < sp.NumVB; vb++ {
+					sp.Backlog[vb] = append(sp.Backlog[vb], genSnap(xr, o, &ctr))
+				}
+				kind := "renumbered"
+				if j%2 == 0 {
+					// the member keeps the group size but gets another number (a peer left, another joined): the gauges follow
+					sp.FirstInfo = [2]int{1 + xr.Intn(3), 3}
+					sp.Steps = []Step{{Op: "barrier"}, {Op: "ack", Sel: "random", N: 2}, {Op: "metrics"}}
+					m := sp.FirstInfo[0]
+					for r := 0; r < 1+xr.Intn(2); r++ {
+						m = m%3 + 1
+						sp.Steps = append(sp.Steps, Step{Op: "membership", N: m, VB: 3}, Step{Op: "waitrebalance", N: r + 1}, Step{Op: "barrier"}, Step{Op: "metrics"})
+					}
+				} else {
+					// a scrape whose sequence-number query is still under way when a rebalance closes the stream
+					kind = "scrape-across-close"
+					sp.FirstInfo = [2]int{1, 1}
+					sp.Steps = []Step{{Op: "barrier"}, {Op: "ack", Sel: "random", N: 2}, {Op: "metrics"}, {Op: "seqnohold", Ms: 100 + xr.Intn(100)}, {Op: "metricsbg"}, {Op: "sleep", Ms: 20 + xr.Intn(30)},
+						{Op: "membership", N: 1, VB: 2}, {Op: "waitrebalance", N: 1}, {Op: "seqnohold", Ms: 0}, {Op: "waitbg"}, {Op: "barrier"}, {Op: "metrics"}}
+				}
 				out = append(out, drv.Scenario{Kind: kind, Seed: seed, Params: mustJSON(sp), TimeoutS: 120})
 			}
 			return out
